@@ -2,6 +2,8 @@
 open Model
 open Driver_lib
 
+type 'a runres = ROk of 'a | RErr of int * err
+
 let handle (toks : string list) : string =
   match toks with
   | ["crc16"; h] -> hex_of_bytes (crc16 (bytes_of_hex h))
@@ -35,6 +37,78 @@ let handle (toks : string list) : string =
     let ts = tree_of_dag ns in
     let t = ts.(Array.length ts - 1) in
     Printf.sprintf "hash=%s depth=%s" (hex_of_bytes (s_hash_sha t)) (dec_of_n (s_depth t))
+  | "rt" :: rest ->
+    let (ns, ops) = parse_dag rest in
+    let trees = tree_of_dag ns in
+    let ops = List.map (parse_op trees) ops in
+    let rec run b k = function
+      | [] -> ROk b
+      | XS o :: r -> (match sstep b o with Ok b' -> run b' (k + 1) r | Err e -> RErr (k, e))
+      | XSnake bs :: r ->
+        (match b_store_snake (nat_of_int 1100) b bs with Ok b' -> run b' (k + 1) r | Err e -> RErr (k, e)) in
+    (match run b_empty 0 ops with
+     | RErr (k, e) -> Printf.sprintf "err@%d %s" k (err_name e)
+     | ROk b ->
+       let all_vals = List.for_all (function XS (OVal _) -> true | _ -> false) ops in
+       let vals = List.filter_map (function XS (OVal v) -> Some v | _ -> None) ops in
+       let head = Printf.sprintf "ok bits=%s refs=%s" (str_of_bits b.b_bits) (commas cell_tag b.b_refs) in
+       if not all_vals then head ^ " loads=-" else
+         let specbits = List.concat_map s_enc vals in
+         let valid = List.for_all tval_ok vals in
+         let senc = if not valid then "na" else if specbits = b.b_bits then "1" else "0" in
+         (match b_end_cell b with
+          | Err e -> head ^ " endcell=err"
+          | Ok c ->
+            let rec loads s acc peek_ok = function
+              | [] -> (List.rev acc, s, peek_ok)
+              | t :: r ->
+                (match load1 s t with
+                 | Err e -> (List.rev (("err:" ^ err_name e) :: acc), s, peek_ok)
+                 | Ok (v, s') ->
+                   let pk = (match preload1 s t with Ok v' -> show_val v' = show_val v | Err _ -> false) in
+                   loads s' (show_val v :: acc) (peek_ok && pk) r) in
+            let (ls, s, pk) = loads (begin_parse c) [] true (List.map ty_of vals) in
+            Printf.sprintf "%s loads=%s rest=%d/%d peek=%s senc=%s" head
+              (if ls = [] then "-" else String.concat "|" ls)
+              (List.length s.s_bits) (List.length s.s_refs) (if pk then "1" else "0") senc))
+  | "senc" :: rest ->
+    let (ns, ops) = parse_dag rest in
+    let trees = tree_of_dag ns in
+    let ops = List.map (parse_op trees) ops in
+    let vals = List.filter_map (function XS (OVal v) -> Some v | _ -> None) ops in
+    Printf.sprintf "valid=%s bits=%s nrefs=%d"
+      (String.concat "" (List.map (fun v -> if tval_ok v then "1" else "0") vals))
+      (str_of_bits (List.concat_map s_enc vals))
+      (List.length (List.concat_map s_refs_of vals))
+  | "ld" :: rest ->
+    let (ns, args) = parse_dag rest in
+    let trees = tree_of_dag ns in
+    (match args with
+     | ci :: sb :: sr :: tys ->
+       let s = begin_parse trees.(int_of_string ci) in
+       let rec drop k l = if k = 0 then l else (match l with [] -> [] | _ :: r -> drop (k - 1) r) in
+       let s = { s_bits = drop (int_of_string sb) s.s_bits; s_refs = drop (int_of_string sr) s.s_refs } in
+       let rec go s k acc = function
+         | [] -> Printf.sprintf "ok %s rest=%d/%d" (if acc = [] then "-" else String.concat "|" (List.rev acc))
+                   (List.length s.s_bits) (List.length s.s_refs)
+         | t :: r ->
+           (match load1 s (parse_ty t) with
+            | Err e -> Printf.sprintf "err@%d %s" k (err_name e)
+            | Ok (v, s') -> go s' (k + 1) (show_val v :: acc) r) in
+       go s 0 [] tys
+     | _ -> "?badargs")
+  | ["snake"; h] ->
+    let bs = bytes_of_hex h in
+    (match b_store_snake (nat_of_int 1100) b_empty bs with
+     | Err e -> "err " ^ err_name e
+     | Ok b ->
+       let rec ncells (Cell (_, _, refs)) = (match refs with [] -> 1 | r :: _ -> 1 + ncells r) in
+       (match b_end_cell b with
+        | Err e -> "err " ^ err_name e
+        | Ok c ->
+          (match s_load_snake (nat_of_int 1100) (begin_parse c) with
+           | Err e -> "err " ^ err_name e
+           | Ok back -> Printf.sprintf "ok cells=%d back=%s" (ncells c) (if back = bs then "1" else "0"))))
   | ["sha256"; h] -> hex_of_bytes (sha256 (bytes_of_hex h))
   | _ -> "?badop"
 
